@@ -301,6 +301,68 @@ theorem async_client_exported_iff_grpc (o : Opts) : ClientName.async ∈ svcInit
   unfold svcInitExports
   cases o.transport.contains grpc <;> simp
 
+/-! ## Module-name collisions of a proto file (`Proto.names`) -/
+
+section AuxNames
+
+theorem twoPackages_iff (refs : List Ref) (m : Str) :
+    twoPackages refs m = true ↔
+      ∃ a ∈ refs, ∃ b ∈ refs, a.module = m ∧ b.module = m ∧ a.package ≠ b.package := by
+  simp [twoPackages, List.any_eq_true, and_assoc]
+
+theorem twoPackages_mono (small big : List Ref) (h : ∀ r ∈ small, r ∈ big) (m : Str)
+    (ht : twoPackages small m = true) : twoPackages big m = true := by
+  rw [twoPackages_iff] at ht ⊢
+  obtain ⟨a, ha, b, hb, h1, h2, h3⟩ := ht
+  exact ⟨a, h a ha, b, h b hb, h1, h2, h3⟩
+
+end AuxNames
+
+/-- **Which module names are collisions**: exactly the names some reference of the FILE uses, and that either two
+references anywhere in the file (of one message or of two) use from distinct proto packages, or that are reserved -/
+theorem module_collision_iff (reserved : List Str) (msgs : List (List Ref)) (m : Str) :
+    m ∈ moduleCollisions reserved msgs ↔
+      (∃ r ∈ msgs.flatten, r.module = m) ∧
+      ((∃ a ∈ msgs.flatten, ∃ b ∈ msgs.flatten, a.module = m ∧ b.module = m ∧ a.package ≠ b.package) ∨ m ∈ reserved) := by
+  simp only [moduleCollisions, List.mem_filter, List.mem_map, Bool.or_eq_true, twoPackages_iff, contains_true_iff]
+
+/-- **Union first, then count**: a module name that two DIFFERENT messages of one file use from two distinct packages
+is in the file's collision set (so both imports get an alias), although neither message sees both packages -/
+theorem collision_across_messages (reserved : List Str) (msgs : List (List Ref)) (ma mb : List Ref)
+    (ha : ma ∈ msgs) (hb : mb ∈ msgs) (a b : Ref) (hma : a ∈ ma) (hmb : b ∈ mb)
+    (hm : a.module = b.module) (hp : a.package ≠ b.package) :
+    a.module ∈ moduleCollisions reserved msgs ∧ a.module ∈ protoNames plain reserved msgs := by
+  have hfa : a ∈ msgs.flatten := List.mem_flatten.mpr ⟨ma, ha, hma⟩
+  have hfb : b ∈ msgs.flatten := List.mem_flatten.mpr ⟨mb, hb, hmb⟩
+  have h1 : a.module ∈ moduleCollisions reserved msgs :=
+    (module_collision_iff reserved msgs a.module).mpr ⟨⟨a, hfa, rfl⟩, Or.inl ⟨a, hfa, b, hfb, rfl, hm.symm, hp⟩⟩
+  exact ⟨h1, by simp [protoNames, h1]⟩
+
+/-- the per-message table finds no more than the per-file table … -/
+theorem per_message_subset (reserved : List Str) (msgs : List (List Ref)) (m : Str)
+    (h : m ∈ moduleCollisionsPerMessage reserved msgs) : m ∈ moduleCollisions reserved msgs := by
+  simp only [moduleCollisionsPerMessage, List.mem_flatMap, List.mem_filter, List.mem_map, Bool.or_eq_true] at h
+  obtain ⟨refs, hrefs, ⟨r, hr, hrm⟩, hc⟩ := h
+  have hsub : ∀ x ∈ refs, x ∈ msgs.flatten := fun x hx => List.mem_flatten.mpr ⟨refs, hrefs, hx⟩
+  simp only [moduleCollisions, List.mem_filter, List.mem_map, Bool.or_eq_true]
+  refine ⟨⟨r, hsub r hr, hrm⟩, ?_⟩
+  rcases hc with hc | hc
+  · exact Or.inl (twoPackages_mono refs _ hsub m hc)
+  · exact Or.inr hc
+
+/-- … and strictly less: two messages each using one of two same-named modules (`common` of the API package and of a
+sub-package) — the per-file set has `common`, the per-message set is empty (the shape of seeded/seed9_C01) -/
+theorem per_message_misses_counterexample :
+    moduleCollisions [] [[⟨['c','o','m','m','o','n'], ['a','.','v','1']⟩], [⟨['c','o','m','m','o','n'], ['a','.','v','1','.','s','u','b']⟩]]
+      = [['c','o','m','m','o','n'], ['c','o','m','m','o','n']] ∧
+    moduleCollisionsPerMessage [] [[⟨['c','o','m','m','o','n'], ['a','.','v','1']⟩], [⟨['c','o','m','m','o','n'], ['a','.','v','1','.','s','u','b']⟩]] = [] := by
+  decide
+
+/-- with one message (or one message that reaches both packages) the two tables agree -/
+theorem per_message_eq_single (reserved : List Str) (refs : List Ref) :
+    moduleCollisionsPerMessage reserved [refs] = moduleCollisions reserved [refs] := by
+  simp [moduleCollisionsPerMessage, moduleCollisions]
+
 /-! ## The empty-module rule (`utils.empty`, end of `Generator._get_file`) -/
 
 /-- lines are judged independently: `empty(a + "\n" + b) = empty(a) and empty(b)` -/
@@ -355,5 +417,9 @@ example : (['r', 'e', 's', 't'] : Str) ∈ registry ⟨[rest], false, false, fal
 -- `empty_iff_lines` on a licence header followed by one statement: not empty; without the statement: empty
 example : emptyContent (['\n'].intercalate [['#', ' ', 'x'], [], [' ', ' '], ['x', ' ', '=', ' ', '1']]) = false ∧
     emptyContent (['\n'].intercalate [['#', ' ', 'x'], [], [' ', '\t'], [' ', '#']]) = true := by decide
+
+-- `collision_across_messages`: two messages, one reference each, same module name, two packages
+example : (⟨['c'], ['a']⟩ : Ref) ∈ [(⟨['c'], ['a']⟩ : Ref)] ∧ (⟨['c'], ['a']⟩ : Ref).module = (⟨['c'], ['a', '.', 'b']⟩ : Ref).module ∧
+    (⟨['c'], ['a']⟩ : Ref).package ≠ (⟨['c'], ['a', '.', 'b']⟩ : Ref).package := by decide
 
 end GapicModel.Props.C01
